@@ -138,7 +138,9 @@ def bigSegmentRef (s : Segment) : String :=
 
 abbrev SegRec := Segment → List String → St → Res Bool × St
 
-/-- The `segmentMatch` branch of `clauseMatchesContext`: any-of over the clause values. -/
+/-- The `segmentMatch` branch of `clauseMatchesContext`: any-of over the clause values.  The test is
+`value.Type() == ldvalue.StringType`, so only a `.str` is a segment key: an unparsed `.raw (.str k)`
+falls into the last case and is skipped. -/
 def segMatchValues (rec : SegRec) (env : Env) (negate : Bool) (chain : List String) :
     List J → St → Res Bool × St
   | [], st => (.ok negate, st)
